@@ -376,6 +376,14 @@ def check_tag_loop(chk, sname, body, info, P="C13"):
                             (len_of_local(tr, v.rv["a"], in_local0) or len_of_local(tr, v.rv["b"], in_local0)):
                         benign = True
                         what = "no progress"
+                if v.kind == "call" and callee(v.term).endswith(("cmp::PartialEq::eq", "cmp::PartialEq::ne")) and in_local0 is not None \
+                        and not benign and progress_guard_replace(body, tr, hdr, loop_blocks, in_local0, sw_bb):
+                    # `last.replace(len) == Some(len)`: the exit of the Option-kept progress guard
+                    rep_args = [tr.single_def(tr.value(a_).place.l) for a_ in v.term["args"]
+                                if tr.value(a_).kind == "ref" and not tr.value(a_).place.p]
+                    if any(d_ is not None and d_[2] == "call" and callee(d_[3]).endswith("Option::<T>::replace") for d_ in rep_args):
+                        benign = True
+                        what = "no progress"
                 if v.kind == "rv" and v.rv["r"] == "discr":
                     src = tr.sources(v.rv["p"])
                     cs = [s_ for s_ in src if s_[0] == "call"]
@@ -412,7 +420,8 @@ def check_tag_loop(chk, sname, body, info, P="C13"):
                 "the unknown-tag arm modifies %s" % disturbed, "default arm is inert", site)
     # leaves the loop (or returns an error): header must not be reachable from the default arm
     in_local = next(iter(in_locals)) if len(in_locals) == 1 else None
-    guarded = in_local is not None and progress_guard(body, tr, hdr, loop_blocks, in_local, sw_bb)
+    guarded = in_local is not None and (progress_guard(body, tr, hdr, loop_blocks, in_local, sw_bb) or
+                                        progress_guard_replace(body, tr, hdr, loop_blocks, in_local, sw_bb))
     chk.require(not _reaches(body, E, hdr) or guarded, P + "-d/unknown-tag-exit", sname,
                 "after an unknown tag the loop continues without a progress guard (the tag would be re-read "
                 "forever)", "default arm exits (or the no-progress guard ends the loop)", site)
@@ -505,6 +514,66 @@ def progress_guard(body, tr, hdr, loop_blocks, in_local, before_bb):
                 ok = False
             if ok and n_in >= 1:
                 return True
+    return False
+
+
+def progress_guard_replace(body, tr, hdr, loop_blocks, in_local, before_bb):
+    """The same guard kept in an Option: `if last.replace(len(input)) == Some(len(input)) { break }`.
+    `replace` stores this round's length and hands back the previous round's (None in the first round); the loop
+    is left when they are equal.  Conditions: the test dominates `before_bb`, its equal edge leaves the loop, both
+    lengths are `len(input)`, and inside the loop nothing else writes the Option."""
+    def is_len(op):
+        if len_of_local(tr, op, in_local):
+            return True
+        v = tr.value(op)
+        if v.kind == "rv" and v.rv["r"] == "un" and v.rv.get("op") == "PtrMetadata":
+            a = tr.value(v.rv["a"])
+            return a.kind in ("ref", "place") and same_local(tr, a.place.strip_deref(), in_local)
+        return False
+
+    def through_ref(op):
+        v = tr.value(op)
+        if v.kind == "ref" and not v.place.p:
+            d = tr.single_def(v.place.l)
+            return d
+        return None
+    for bb in sorted(loop_blocks):
+        t = body.blocks[bb]["term"]
+        if t["t"] != "switch" or not body.dominates(bb, before_bb):
+            continue
+        v = tr.value(t["d"])
+        if v.kind != "call" or not callee(v.term).endswith(("cmp::PartialEq::eq", "cmp::PartialEq::ne")) or len(v.term["args"]) != 2:
+            continue
+        is_eq = callee(v.term).endswith("::eq")
+        rep = some = None
+        for a in v.term["args"]:
+            d = through_ref(a)
+            if d is None:
+                continue
+            if d[2] == "call" and callee(d[3]).endswith("Option::<T>::replace"):
+                rep = d
+            elif d[2] == "assign" and d[3]["rv"]["r"] == "agg" and d[3]["rv"].get("vname") == "Some" and \
+                    len(d[3]["rv"]["ops"]) == 1 and is_len(d[3]["rv"]["ops"][0]):
+                some = d
+        if rep is None or some is None:
+            continue
+        rt = rep[3]
+        if rep[0] not in loop_blocks or not body.dominates(rep[0], bb) or len(rt["args"]) != 2 or not is_len(rt["args"][1]):
+            continue
+        cv = tr.value(rt["args"][0])
+        if not (cv.kind == "ref" and cv.mut and not cv.place.p):
+            continue
+        c = cv.place.l
+        # equal edge leaves the loop
+        zero_t = dict((val, tb) for val, tb in t["targets"]).get(0)
+        eq_target = t["else"] if is_eq else zero_t
+        if eq_target is None or (eq_target in loop_blocks and _reaches_within(body, eq_target, hdr, loop_blocks)):
+            continue
+        # nothing else in the loop writes the Option
+        others = [d for d in tr.defs.get(c, []) if d[0] in loop_blocks]
+        writers = [(wb, wt) for wb, wt in tr.mut_writers().get(c, []) if wb in loop_blocks and wt is not rt]
+        if not others and not writers:
+            return True
     return False
 
 
